@@ -52,6 +52,9 @@ func runC10(w *World, r *Report) {
 	r.Rule("C10-R4", "one selection predicate", "GetShouldReadFunc's closure and getChannelReader's dataHandleFunc both call GetCollectionInfos and reach GetMatchCollectionInfo", 4)
 	r.Rule("C10-R5", "rebuild uses the reserve combinator", "ReloadTask stores extraInfos[uKey].EnableUserRole = existing || task's flag, as checkDuplicateCollection does", 1)
 
+	r.Rule("C10-R7", "bookkeeping read-modify-write is atomic", "a value written into collectionNames.{data,excludeData,extraInfos,nameMapping} that derives from a read of the same table was read in the same function under the same lock span as the write (same analysis as C19-R8)", 4)
+	c19AtomicRMW(w, r, "C10-R7")
+
 	cd := w.Func(pkgServer, "MetaCDC", "checkDuplicateCollection")
 	cr := w.Func(pkgServer, "MetaCDC", "Create")
 	del := w.Func(pkgServer, "MetaCDC", "delete")
@@ -61,7 +64,7 @@ func runC10(w *World, r *Report) {
 		return
 	}
 	reads, writes := map[string]bool{}, map[string]bool{}
-	eachInstr(cd, func(in ssa.Instruction) {
+	eachInstrDeep(cd, func(_ *ssa.Function, in ssa.Instruction) {
 		if t, wr := c10Access(w, in); t != "" {
 			if wr {
 				writes[t] = true
@@ -273,6 +276,44 @@ func runC10(w *World, r *Report) {
 		}
 	}
 
+	// ---------- R6 exclusions are interpreted with the matcher that produced them
+	r.Rule("C10-R6", "exclusions are matched like they were computed", "the reserve side records exclusions as `db.collection` or `db.*`; in GetMatchCollectionInfo the whole-database selection tests every entry of taskInfo.ExcludeCollections through matchCollectionName (the wildcard-aware matcher checkDuplicateCollection uses), and the selected info is returned only when no entry matches", 1)
+	if gm := w.Func(pkgServer, "", "GetMatchCollectionInfo"); gm == nil {
+		r.Undecided("C10-R6", "GetMatchCollectionInfo", 0, "anchor not found")
+	} else {
+		viaMatcher, overExcl := false, false
+		for _, g := range familyOf(gm).Funcs {
+			eachInstr(g, func(in ssa.Instruction) {
+				c, ok := in.(*ssa.Call)
+				if !ok {
+					return
+				}
+				s := callSym(c.Common())
+				if s.name == "matchCollectionName" && s.pkg == pkgServer {
+					// first argument is the exclusion entry: the literal's own parameter or an element of ExcludeCollections
+					a0 := callArgs(c.Common())[0]
+					if p, isP := a0.(*ssa.Parameter); isP && g.Parent() != nil && len(g.Params) > 0 && p == g.Params[0] {
+						viaMatcher = true
+					}
+					if strings.Contains(w.accessPath(a0), "ExcludeCollections") {
+						viaMatcher = true
+					}
+				}
+				for _, a := range callArgs(c.Common()) {
+					if strings.HasSuffix(w.accessPath(a), ".ExcludeCollections") {
+						overExcl = true
+					}
+				}
+			})
+			eachInstr(g, func(in ssa.Instruction) {
+				if rg, ok := in.(*ssa.Range); ok && strings.HasSuffix(w.accessPath(rg.X), ".ExcludeCollections") {
+					overExcl = true
+				}
+			})
+		}
+		r.Check(viaMatcher && overExcl, "C10-R6", "GetMatchCollectionInfo | exclusion test", gm.Pos(), "every exclusion entry goes through matchCollectionName", "the whole-database selection does not test the task's exclusions through matchCollectionName: a `db.*` exclusion (recorded when another task owns the whole database) matches no concrete collection, so both tasks select the collections of that database")
+	}
+
 	// ---------- R5
 	{
 		ok := false
@@ -385,6 +426,11 @@ func onlyWriteThrough(v ssa.Value, d int) bool {
 				return false
 			}
 		case *ssa.DebugRef:
+		case *ssa.Call:
+			// maps.Copy(dst, src): dst is only written
+			if cs := callSym(x.Common()); !(cs.pkg == "maps" && cs.name == "Copy" && len(x.Call.Args) == 2 && x.Call.Args[0] == v) {
+				return false
+			}
 		default:
 			return false
 		}
